@@ -9,7 +9,9 @@ import (
 	"context"
 	"crypto/aes"
 	"errors"
+	"fmt"
 	"io"
+	"os"
 	"sync"
 	"time"
 
@@ -31,17 +33,41 @@ type Pipe struct {
 	in     chan []byte
 	closed chan struct{}
 	once   sync.Once
-	// FailSend, when set, makes Send return this error (after recording nothing).
-	FailSend error
+
+	mu    sync.Mutex
+	fail  error // Send returns this error without delivering the frame
+	block bool  // Send blocks until its context ends, then fails like a write deadline
 }
 
 func NewPipe() *Pipe {
 	return &Pipe{Sent: make(chan []byte, 1<<16), in: make(chan []byte, 1<<12), closed: make(chan struct{})}
 }
 
+// SetFail makes every following Send fail with err (nil restores normal delivery).
+func (p *Pipe) SetFail(err error) { p.mu.Lock(); p.fail = err; p.mu.Unlock() }
+
+// SetBlock makes every following Send behave like a write on a half-open link: it blocks until
+// the context of the call ends and then fails with an i/o timeout (not a context error), which
+// is what transport.connection.Send does with the context deadline (SetWriteDeadline).
+func (p *Pipe) SetBlock(b bool) { p.mu.Lock(); p.block = b; p.mu.Unlock() }
+
+// ErrIOTimeout is the error of a blocked write (net: "i/o timeout" = os.ErrDeadlineExceeded).
+var ErrIOTimeout = fmt.Errorf("write tcp: %w", os.ErrDeadlineExceeded)
+
 func (p *Pipe) Send(ctx context.Context, b *bin.Buffer) error {
-	if p.FailSend != nil {
-		return p.FailSend
+	p.mu.Lock()
+	fail, block := p.fail, p.block
+	p.mu.Unlock()
+	if block {
+		select {
+		case <-ctx.Done():
+			return ErrIOTimeout
+		case <-p.closed:
+			return errors.New("pipe closed")
+		}
+	}
+	if fail != nil {
+		return fail
 	}
 	select {
 	case <-p.closed:
